@@ -1,15 +1,31 @@
-(* driver for the extracted hash_map model: same scripts as comp/hashmap/harness.cpp *)
+(* driver for the extracted hash_map model: same scripts as comp/hashmap/harness.cpp.
+   argv: [sizeof(chain * )] [sizeof(chain)] as measured on the real code by `harness --sizes`
+   (the model and its theorems are parametric in both). Per op: the result line, then the event
+   line "e ..." (allocator / lifetime events of that op); after the last op the destructor's. *)
+(* the hash functions of the harness's Hasher, NOT reduced to 32 bits: the model does that itself *)
 let m32 = 0xFFFFFFFFL
 let hash_of kind : n -> n = fun k ->
   let x = i64_of_n k in
   n_of_i64 (match kind with
-    | 0 -> Int64.logand x m32
+    | 0 -> x
     | 1 -> 7L
     | 2 -> Int64.unsigned_rem x 3L
     | 3 -> Int64.logand (Int64.logxor x (Int64.shift_right_logical x 32)) m32
-    | _ -> Int64.logand (Int64.shift_right_logical x 28) m32)
+    | _ -> Int64.shift_right_logical x 28)
+
+let psz = n_of_string (if Array.length Sys.argv > 1 then Sys.argv.(1) else "8")
+let nsz = n_of_string (if Array.length Sys.argv > 2 then Sys.argv.(2) else "32")
 
 let show_opt = function None -> "v none" | Some v -> "v " ^ string_of_n v
+
+let show_ev = function
+  | EAlloc (b, n) -> Printf.sprintf " A%d:%s" (int_of_nat b) (string_of_n n)
+  | EDealloc (b, n) -> Printf.sprintf " F%d:%s" (int_of_nat b) (string_of_n n)
+  | EFree b -> Printf.sprintf " R%d" (int_of_nat b)
+  | EConstruct (b, _) -> Printf.sprintf " C%d" (int_of_nat b)
+  | EDestroy (b, _) -> Printf.sprintf " D%d" (int_of_nat b)
+  | EUse (b, _) -> Printf.sprintf " U%d" (int_of_nat b)
+let show_evs es = "e" ^ String.concat "" (List.map show_ev es) ^ "\n"
 
 let body lines =
   let kind, ops = match lines with
@@ -17,7 +33,7 @@ let body lines =
       (int_of_string (List.nth (words l) 1), r)
     | _ -> (0, lines) in
   let hash = hash_of kind in
-  let m = ref empty_hm in
+  let s = ref empty_lhm in
   List.iter (fun l ->
     let o = match words l with
       | ["i"; k; v] -> Some (Insert (n_of_string k, n_of_string v))
@@ -30,14 +46,17 @@ let body lines =
     match o with
     | None -> ()
     | Some o ->
-      let (m', out) = step hash !m o in
-      m := m';
+      let ((s', out), evs) = lstep hash psz nsz !s o in
+      s := s';
       print_string (match out with
         | OUnit -> "u"
         | OVal v -> show_opt v
         | OBool b -> if b then "b 1" else "b 0"
         | OList l -> "l" ^ String.concat "" (List.map (fun (k, v) -> " " ^ string_of_n k ^ ":" ^ string_of_n v) l)
         | OAssert -> "assert");
-      print_string "\n") ops
+      print_string "\n";
+      print_string (show_evs evs)) ops;
+  print_string "dtor\n";
+  print_string (show_evs (destructor_evs psz nsz !s))
 
 let () = run_cases body
